@@ -6,6 +6,8 @@ use ohsl::{Cmplx, Polynomial, Vector};
 
 fn cx_maxbe(cx: &Ctx) -> f64 { cx.meta.iter().find(|kv| kv.0 == "maxbe").map(|kv| kv.1.parse::<f64>().unwrap()).unwrap_or(0.0) }
 fn cabs(z: Cmplx) -> f64 { z.real.hypot(z.imag) }
+/// the modulus exactly as the crate computes it (the reference copy of the pinned algorithm must follow the code bit for bit)
+fn cabs_ref(z: Cmplx) -> f64 { (z.real * z.real + z.imag * z.imag).sqrt() }
 
 fn roots(t: &mut Toks, cx: &mut Ctx) -> String {
     let tag = t.next().to_string();
@@ -45,10 +47,9 @@ fn roots(t: &mut Toks, cx: &mut Ctx) -> String {
                     if !(be <= lim) { cx.fail(format!("root {} = ({:e},{:e}) has backward error {:e} (|p(z)| = {:e}, max|a| = {:e})", k, zk.real, zk.imag, be, cabs(pv), amax)); }
                 }
                 if !cx.fails.is_empty() && n == 3 && !refine && cardano_discriminant_lost(&coeffs) {
-                    // classify (independent recomputation of Cardano's intermediates in the harness): the chosen root of the resolvent
-                    // z^2 - d1 z + d0^3 must be the one of LARGER modulus, |base|^2 >= |d0|^3; a computed base far below that is
-                    // pure rounding noise: the discriminant cancelled completely, the closed form has no information left
-                    for f in cx.fails.iter_mut() { f.push_str(" [closed-form cubic: the discriminant cancelled (computed resolvent root below |d0|^1.5): Cardano's formula has no information left on this input]"); }
+                    // classify (independent recomputation of the discriminant in the harness, plain f64): its five terms cancel to
+                    // below their rounding uncertainty, so sqrt(-27 a^2 dis) and everything derived from it is rounding noise
+                    for f in cx.fails.iter_mut() { f.push_str(" [closed-form cubic: the discriminant cancelled (|dis| below the rounding uncertainty 8 eps sum|terms| of its evaluation): Cardano's formula has no information left on this input]"); }
                 }
                 if !cx.fails.is_empty() && n > 3 {
                     // classify: does the reference copy of the pinned Laguerre + deflation algorithm fail on this input too?
@@ -87,14 +88,14 @@ fn ref_laguer(a: &[Cmplx], x: &mut Cmplx) -> bool {
     let frac = [0.0, 0.5, 0.25, 0.75, 0.13, 0.38, 0.62, 0.88, 1.0];
     let m = a.len() - 1;
     for iter in 1..80usize {
-        let mut b = a[m]; let mut err = cabs(b); let mut d = Cmplx::new(0.0, 0.0); let mut f = Cmplx::new(0.0, 0.0); let abx = cabs(*x);
-        for j in (0..m).rev() { f = *x * f + d; d = *x * d + b; b = *x * b + a[j]; err = cabs(b) + abx * err; }
+        let mut b = a[m]; let mut err = cabs_ref(b); let mut d = Cmplx::new(0.0, 0.0); let mut f = Cmplx::new(0.0, 0.0); let abx = cabs_ref(*x);
+        for j in (0..m).rev() { f = *x * f + d; d = *x * d + b; b = *x * b + a[j]; err = cabs_ref(b) + abx * err; }
         err *= f64::EPSILON;
-        if cabs(b) <= err { return true; }
+        if cabs_ref(b) <= err { return true; }
         let g = d / b; let g2 = g * g; let h = g2 - (f / b) * 2.0;
         let sq = ((h * (m as f64) - g2) * ((m - 1) as f64)).sqrt();
         let mut gp = g + sq; let gm = g - sq;
-        let (abp, abm) = (cabs(gp), cabs(gm));
+        let (abp, abm) = (cabs_ref(gp), cabs_ref(gm));
         if abp < abm { gp = gm; }
         let dx = if abp.max(abm) > 0.0 { Cmplx::new(m as f64, 0.0) / gp } else { Cmplx::polar(1.0 + abx, iter as f64) };
         let x1 = *x - dx;
@@ -157,11 +158,12 @@ fn cardano_discriminant_lost(c: &[Cmplx]) -> bool {
     let dis = 18.0 * a * b * cc * d - 4.0 * b * b2 * d + b2 * c2 - 4.0 * a * c2 * cc - 27.0 * a2 * d2;
     let d0 = b2 - 3.0 * a * cc;
     let d1 = 2.0 * b2 * b - 9.0 * a * b * cc + 27.0 * a2 * d;
-    let w = -27.0 * a * a * dis;
-    // sq = sqrt(w): real for w >= 0 (then base = (d1 -/+ sq)/2 with the non-cancelling sign), purely imaginary otherwise
-    let nb = if w >= 0.0 { let sq = w.sqrt(); (if d1 * sq < 0.0 { d1 - sq } else { d1 + sq } / 2.0).abs() } else { d1.hypot((-w).sqrt()) / 2.0 };
-    let n0 = d0.abs();
-    nb.is_finite() && n0.is_finite() && n0 > 0.0 && nb * nb < 1e-6 * n0 * n0 * n0
+    let _ = (d0, d1);
+    // the five terms of the discriminant cancel: its computed value has NO correct digit when it is below the rounding
+    // uncertainty of the sum, about eps * sum |terms|
+    let terms = [18.0 * a * b * cc * d, -4.0 * b * b2 * d, b2 * c2, -4.0 * a * c2 * cc, -27.0 * a2 * d2];
+    let s: f64 = terms.iter().map(|x| x.abs()).sum();
+    s.is_finite() && s > 0.0 && dis.abs() <= 8.0 * f64::EPSILON * s
 }
 
 /// coefficients (real) of a * (x - r1)(x - r2)(x - r3)..., computed in f64 from real roots and conjugate pairs
